@@ -150,6 +150,7 @@ class VSeq(V):
         self.etype = etype
         self.concrete = concrete  # python list of V when the length is syntactically known
         self.flat = None          # for lists of sequences: total number of elements (z3 Int), when tracked
+        self.kind = None          # None: python list; z3 Int: 0 list / 1 torch tensor / 2 numpy array (dynamic type tag)
     def __repr__(self): return f"VSeq(len={self.len}, {self.etype!r})"
 
     @staticmethod
@@ -318,7 +319,7 @@ def typeof(v):
     if isinstance(v, VSeq): return TSeq(v.etype)
     if isinstance(v, VTuple): return TTuple([typeof(e) for e in v.elems])
     if isinstance(v, VRec): return TRec(v.name, {f: typeof(x) for f, x in v.fields.items()})
-    if isinstance(v, VAbs):
+    if isinstance(v, (VAbs, VClass, VFunc)):
         return TAbs(None, getattr(v, "label", "abs"))
     if isinstance(v, VRef):
         return TAbs(None, "ref")
@@ -329,8 +330,19 @@ class MergeError(Exception):
     pass
 
 
+def as_val(v):
+    """inject heap references and class objects into the opaque value sort (identity only)"""
+    if isinstance(v, VRef):
+        return VVal(z3.Const(f"obj!{v.oid}", ValSort))
+    if isinstance(v, VClass):
+        return VVal(z3.Const(f"class!{v.name}", ValSort))
+    return v
+
+
 def ite(c, a, b):
     """z3-level if-then-else on values of equal shape"""
+    if isinstance(a, VVal) and isinstance(b, (VRef, VClass)) or isinstance(b, VVal) and isinstance(a, (VRef, VClass)):
+        a, b = as_val(a), as_val(b)
     if isinstance(c, bool):
         return a if c else b
     if z3.is_true(c): return a
@@ -393,6 +405,8 @@ def default_of(v):
 
 def veq(a, b):
     """z3 Bool for python `a == b` on values (structural)"""
+    if isinstance(a, VVal) and isinstance(b, (VRef, VClass)) or isinstance(b, VVal) and isinstance(a, (VRef, VClass)):
+        a, b = as_val(a), as_val(b)
     if isinstance(a, VOpt) or isinstance(b, VOpt):
         if isinstance(a, VNone): return b.isnone
         if isinstance(b, VNone): return a.isnone
